@@ -223,7 +223,7 @@ struct Ctx {
         if (cs.stored >= 400) return;
         ++cs.stored;
         std::string r = "{\"property\":\"" + property + "\",\"check\":\"" + check + "\",\"site\":\"" + site +
-                        "\",\"params\":" + params + ",\"detail\":" + detail.str() + ",\"observed\":\"" + jesc(observed) + "\",\"expected\":\"" +
+                        "\",\"params\":" + params + ",\"params_str\":\"" + jesc(params) + "\",\"detail\":" + detail.str() + ",\"observed\":\"" + jesc(observed) + "\",\"expected\":\"" +
                         jesc(expected) + "\"}";
         viol_records.push_back(r);
     }
